@@ -987,6 +987,9 @@ class Evaluator:
                 return (('res', ('mapped', fv, inner)), pre)
             if name == 'map_err':
                 return (argv[0], pre)
+            if name == 'or' and len(argv) == 2 and self.is_err_value(argv[1]):
+                # `r.or(Err(e))`: r with its error replaced, as `r.map_err(|_| e)` is
+                return (argv[0], pre)
             if name in ('ok_or_else', 'ok_or'):
                 return (('res', inner), cat(pre, ['CHECK', name, recv]))
             if name == 'ok':
